@@ -98,6 +98,36 @@ theorem exo_sorted (tiny : K) (f : ExoFile K) :
     (decExo tiny f).wn.Perm ((exoGroup f.body).map (fun b => exoWn b.1)) :=
   ⟨gather_argsort_sorted _, gather_argsort_perm _⟩
 
+omit [IsStrictOrderedRing K] in
+/-- the order of the wavelength blocks in the file is immaterial for the loaded wavenumber axis: two files whose
+    blocks carry the same wavelengths in any two orders load the same grid (the sort is a real sort, not a reversal) -/
+theorem exo_wn_order_invariant (tiny : K) (f g : ExoFile K)
+    (h : ((exoGroup f.body).map (fun b => exoWn b.1)).Perm ((exoGroup g.body).map (fun b => exoWn b.1))) :
+    (decExo tiny f).wn = (decExo tiny g).wn :=
+  List.Perm.eq_of_pairwise (le := (· ≤ ·)) (fun _ _ _ _ h1 h2 => le_antisymm h1 h2)
+    (exo_sorted tiny f).1 (exo_sorted tiny g).1
+    ((exo_sorted tiny f).2.trans (h.trans (exo_sorted tiny g).2.symm))
+
+omit [IsStrictOrderedRing K] in
+/-- the table is permuted exactly like the wavenumber axis: with `perm` the sorting permutation of the file's
+    wavenumbers, entry `k` of the loaded grid is the wavenumber of block `perm[k]`, and entry `k` of every loaded
+    (P,T) column is the value read in block `perm[k]` (+`tiny`, ×10⁴) -/
+theorem exo_aligned (tiny : K) (f : ExoFile K) (i j : Nat) (hi : i < f.prow.length) (hj : j < f.trow.length) :
+    let blocks := exoGroup f.body
+    let wn0 := blocks.map (fun b => exoWn b.1)
+    (decExo tiny f).wn = (argsort wn0).map (fun k => wn0.getD k 0) ∧
+    ((decExo tiny f).x.getD i []).getD j [] =
+      (argsort wn0).map (fun k => ((((blocks.getD k (0, [])).2.getD i []).getD (j + 1) 0) + tiny) * 10000) := by
+  refine ⟨rfl, ?_⟩
+  simp [decExo, List.getD_eq_getElem?_getD, hi, hj]
+
+/-- a file with its wavelength blocks in DEscending wavelength order (wavenumbers already ascending) -/
+example : (decExo 0 (⟨[100, 200], [1/10000],
+      [[1/100], [1/10000, 1/10000, 2/10000], [1/200], [1/10000, 3/10000, 4/10000]]⟩ : ExoFile ℚ)).p = [10] ∧
+    exoGroup ([[1/100], [1/10000, 1/10000, 2/10000], [1/200], [1/10000, 3/10000, 4/10000]] : List (List ℚ)) =
+      [(1/100, [[1/10000, 1/10000, 2/10000]]), (1/200, [[1/10000, 3/10000, 4/10000]])] := by
+  decide +kernel
+
 /-- all cross-section containers written from one table decode to that table -/
 theorem formats_agree (tab : XTab K) (units name : String) (c : K) (hu : unitFactor true units = some c)
     (hwf : tab.WF) (ht : tab.t ≠ []) (hwn : tab.wn.Pairwise (· < ·)) (hpos : ∀ w ∈ tab.wn, 0 < w) :
